@@ -13,8 +13,9 @@ Sgn(x) == IF x > 0 THEN 1 ELSE IF x < 0 THEN -1 ELSE 0
 Max(a, b) == IF a >= b THEN a ELSE b
 Min(a, b) == IF a <= b THEN a ELSE b
 
-RECURSIVE Gcd(_, _)
-Gcd(a, b) == IF b = 0 THEN Abs(a) ELSE Gcd(b, a % b)
+RECURSIVE GcdN(_, _)
+GcdN(a, b) == IF b = 0 THEN a ELSE GcdN(b, a % b)      \* a, b >= 0
+Gcd(a, b) == GcdN(Abs(a), Abs(b))
 
 RECURSIVE SumSeq(_)
 SumSeq(s) == IF s = <<>> THEN 0 ELSE Head(s) + SumSeq(Tail(s))
